@@ -1,6 +1,5 @@
 import BeyondVerif.Lemmas.Interp
 import BeyondVerif.Lemmas.InterpFormula
-import BeyondVerif.Lemmas.LagrangeRemainder
 import Mathlib.Tactic.FieldSimp
 import Mathlib.Tactic.Ring
 import Mathlib.Tactic.IntervalCases
